@@ -13,6 +13,7 @@
 EXTENDS Algo, Json
 
 CONSTANTS N, MaxE, Weights, NTypes,
+          Canonical,            \* TRUE: one history per bag (non-decreasing keys); FALSE: every insertion sequence
           NoRedistribution      \* self-test: claim "PageRank sums to one" WITHOUT dangling redistribution (must fail)
 
 VARIABLE hist
@@ -33,7 +34,7 @@ DoAddNode == /\ nn < N
              /\ hist' = Append(hist, [op |-> "AddNode", labels |-> LabelsOf(nn + 1)])
 DoAddEdge == /\ nn = N /\ Len(edges) < MaxE
              /\ \E s \in 1..N, d \in 1..N, w \in Weights, t \in Range(TypeSeq) :
-                   /\ EKey(s, d, w, t) >= LastKey
+                   /\ Canonical => EKey(s, d, w, t) >= LastKey
                    /\ AddEdge(s, d, w, t)
                    /\ hist' = Append(hist, [op |-> "AddEdge", s |-> s, d |-> d, w |-> w, t |-> t])
 Next == DoAddNode \/ DoAddEdge
@@ -42,7 +43,9 @@ Spec == Init /\ [][Next]_vars
 RevSeq(s) == [i \in 1..Len(s) |-> s[Len(s) + 1 - i]]
 Reversed(h) == SubSeq(h, 1, N) \o RevSeq(SubSeq(h, N + 1, Len(h)))
 Emit == nn' = N => /\ PrintT(<<"SCRIPT", ToJson(hist')>>)
-                   /\ (Reversed(hist') # hist' => PrintT(<<"SCRIPT", ToJson(Reversed(hist'))>>))
+                   /\ ((Canonical /\ Reversed(hist') # hist') => PrintT(<<"SCRIPT", ToJson(Reversed(hist'))>>))
+\* for -simulate: random graphs with exactly MaxE relationships
+SimEmit == (nn = N /\ Len(edges) = MaxE) => PrintT(<<"SCRIPT", ToJson(hist)>>)
 
 TypeOK == /\ nn \in 0..N /\ Len(lab) = nn /\ Len(edges) <= MaxE
           /\ \A i \in DOMAIN edges : edges[i].s \in 1..nn /\ edges[i].d \in 1..nn /\ edges[i].w \in Weights
@@ -69,6 +72,11 @@ CutBounds == Done => \A p \in PairsST :
                  /\ c <= CutCap(G, {p[1]}) /\ c <= CutCap(G, G.V \ {p[2]})
 \* brute-force MST weight = Kruskal's greedy weight (two independent definitions)
 MstIsKruskal == Done => \A r \in G.V : MstWeight(G, r) = Kruskal(G, r)
+\* self-test (must FAIL): Prim as pinned, which looks at ONE parallel relationship chosen by position, is not minimal
+PositionalParallel(g) == LET keep == SelectSeq([i \in DOMAIN g.E |-> [e |-> g.E[i], i |-> i]],
+                                               LAMBDA x : ~\E j \in DOMAIN g.E : j > x.i /\ g.E[j].s = x.e.s /\ g.E[j].d = x.e.d)
+                         IN [V |-> g.V, E |-> [i \in DOMAIN keep |-> keep[i].e]]
+LegacyPrimMinimal == Done => \A r \in G.V : Kruskal(PositionalParallel(G), r) = MstWeight(G, r)
 \* Fagiolo's coefficient on a symmetric digraph is the undirected coefficient; triangles = sum of links / 3
 LccAgree == Done => /\ \A v \in G.V : LET a == LccDirected(Sym(G), v)
                                           b == LccUndirected(G, v)
